@@ -319,6 +319,11 @@ func reportViolation(tr *engine.Trace, v *engine.Violation, prop string, vseed, 
 		steps = tr.Steps // C10 compares whole executions; cutting is done by the shrinker
 	}
 	sh := &engine.Shrinker{Base: tr, Want: v, Deadline: time.Now().Add(60 * time.Second), MaxExec: 1500, MkCheck: func() engine.Checker { return engine.NewChecker(prop) }}
+	if prop == "C10" {
+		// the map-iteration-order sub-case replays only probabilistically (DESIGN §2.6)
+		sh.Repeats, sh.AnyRule = 6, true
+		sh.Deadline = time.Now().Add(120 * time.Second)
+	}
 	if !sh.Fails(steps) {
 		// the cut trace must fail the same way; if it does not, fall back to the full one
 		steps = tr.Steps
@@ -328,7 +333,14 @@ func reportViolation(tr *engine.Trace, v *engine.Violation, prop string, vseed, 
 	}
 	minSteps := sh.Shrink(steps)
 	mt := tr.CloneWithSteps(minSteps)
-	w, err := engine.ReplayTrace(mt, engine.NewChecker(prop))
+	var w *engine.World
+	var err error
+	for try := 0; try < 1+3*sh.Repeats; try++ {
+		w, err = engine.ReplayTrace(mt, engine.NewChecker(prop))
+		if err == nil && w.Viol != nil {
+			break
+		}
+	}
 	if err != nil || w.Viol == nil {
 		return nil
 	}
